@@ -280,6 +280,8 @@ def canon(v):
         return f'D:{v.cls.name}:' + v.expr.sexpr()
     if isinstance(v, RecV):
         return f'J:{v.schema.name}:' + v.expr.sexpr()
+    if type(v).__name__ == 'JUnionV':
+        return f'JU:{v.uni.name}:' + v.expr.sexpr()
     if isinstance(v, ObjV):
         return f'O:{v.cls.name}{{' + ','.join(f'{k}={canon(x)}' for k, x in v.fields.items()) + '}'
     if isinstance(v, tuple):
@@ -443,6 +445,8 @@ def subst(v, pairs):
     if isinstance(v, RecV):
         return RecV(v.schema, z3.substitute(v.expr, *pairs))
     tn = type(v).__name__
+    if tn == 'JUnionV':
+        return type(v)(v.uni, z3.substitute(v.expr, *pairs))
     if tn == 'EnumSym':
         return type(v)(v.cls, z3.substitute(v.expr, *pairs))
     if tn == 'UnionV':
